@@ -62,9 +62,11 @@ class Matcher:
         self.groupindex = dict(self.tree.state.groupdict)
         self.ngroups = self.tree.state.groups
 
-    def match(self, s):
-        """s: list of char codes (int | SInt). Anchored at 0 like re.match."""
-        for end, groups in self._seq(list(self.tree), 0, s, {}):
+    def match(self, s, start=0, full=False):
+        """s: list of char codes (int | SInt). Anchored at `start` like re.match; full: the match must end at the end (fullmatch)."""
+        for end, groups in self._seq(list(self.tree), start, s, {}):
+            if full and end != len(s):
+                continue
             return end, groups
         return None
 
@@ -134,13 +136,37 @@ class Matcher:
 
 
 class SymMatch:
-    def __init__(self, m, s, end, groups):
-        self._m, self.string, self._end, self._g = m, s, end, groups
+    def __init__(self, m, s, end, groups, start=0):
+        self._m, self.string, self._end, self._g, self._start = m, s, end, groups, start
+
+    def start(self, g=0):
+        return self._start if g == 0 else (self._g.get(self._gid(g)) or (-1, -1))[0]
+
+    def end(self, g=0):
+        return self._end if g == 0 else (self._g.get(self._gid(g)) or (-1, -1))[1]
+
+    def span(self, g=0):
+        return (self.start(g), self.end(g))
+
+    def _gid(self, n):
+        return self._m.groupindex[n] if isinstance(n, str) else n
+
+    def groups(self, default=None):
+        return tuple(self.group(i) if self._g.get(i) is not None else default for i in range(1, self._m.ngroups))
+
+    def groupdict(self, default=None):
+        return {k: (self.group(k) if self._g.get(v) is not None else default) for k, v in self._m.groupindex.items()}
+
+    def __getitem__(self, n):
+        return self.group(n)
 
     def group(self, *names):
+        if not names:
+            names = (0,)
+
         def one(n):
             if n == 0:
-                return self.string[0:self._end]
+                return self.string[self._start:self._end]
             gid = self._m.groupindex[n] if isinstance(n, str) else n
             sp = self._g.get(gid)
             if sp is None:
@@ -158,10 +184,80 @@ class SymPattern:
         self.pattern = real.pattern
         self.m = Matcher(real.pattern, real.flags & ~32)
 
-    def match(self, s):
-        if isinstance(s, str):
-            return self.real.match(s)
-        r = self.m.match(list(s._d))
+    def __getattr__(self, name):
+        return getattr(self.real, name)
+
+    def match(self, s, *a):
+        if isinstance(s, (str, bytes)):
+            return self.real.match(s, *a)
+        r = self.m.match(list(s._d), *(a[:1]))
         if r is None:
             return None
-        return SymMatch(self.m, s, r[0], r[1])
+        return SymMatch(self.m, s, r[0], r[1], a[0] if a else 0)
+
+    def fullmatch(self, s, *a):
+        if isinstance(s, (str, bytes)):
+            return self.real.fullmatch(s, *a)
+        r = self.m.match(list(s._d), *(a[:1]), full=True)
+        if r is None:
+            return None
+        return SymMatch(self.m, s, r[0], r[1], a[0] if a else 0)
+
+    def search(self, s, *a):
+        if isinstance(s, (str, bytes)):
+            return self.real.search(s, *a)
+        d = list(s._d)
+        for st in range(a[0] if a else 0, len(d) + 1):
+            r = self.m.match(d, st)
+            if r is not None:
+                return SymMatch(self.m, s, r[0], r[1], st)
+        return None
+
+    def findall(self, s, *a):
+        if isinstance(s, (str, bytes)):
+            return self.real.findall(s, *a)
+        raise EngineLimit("re.findall on a symbolic string")
+
+    finditer = sub = subn = split = findall
+
+
+class SymRe:
+    """stand-in for the `re` module inside a module under test: compiled patterns become symbolic-aware"""
+    def __init__(self):
+        self._cache = {}
+
+    def __getattr__(self, name):
+        return getattr(re, name)
+
+    def compile(self, pattern, flags=0):
+        if isinstance(pattern, SymPattern):
+            return pattern
+        key = (pattern, flags)
+        if key not in self._cache:
+            self._cache[key] = SymPattern(re.compile(pattern, flags))
+        return self._cache[key]
+
+    def match(self, pattern, string, flags=0): return self.compile(pattern, flags).match(string)
+    def fullmatch(self, pattern, string, flags=0): return self.compile(pattern, flags).fullmatch(string)
+    def search(self, pattern, string, flags=0): return self.compile(pattern, flags).search(string)
+    def findall(self, pattern, string, flags=0): return self.compile(pattern, flags).findall(string)
+    def sub(self, pattern, repl, string, count=0, flags=0): return self.compile(pattern, flags).sub(repl, string, count)
+    def split(self, pattern, string, maxsplit=0, flags=0): return self.compile(pattern, flags).split(string, maxsplit)
+
+
+SYMRE = SymRe()
+
+
+def wrap_module_patterns(patch, module):
+    """every compiled pattern among the module's globals, and the names it uses to compile patterns, become symbolic-aware"""
+    n = 0
+    for name, v in list(vars(module).items()):
+        if isinstance(v, re.Pattern):
+            patch.setg(module, name, SymPattern(v)); n += 1
+        elif v is re:
+            patch.setg(module, name, SYMRE)
+        elif v is re.compile:
+            patch.setg(module, name, SYMRE.compile)
+        elif v in (re.match, re.fullmatch, re.search):
+            patch.setg(module, name, getattr(SYMRE, v.__name__))
+    return n
